@@ -70,9 +70,10 @@ def run_engine_property(ctx, pid, oracles, feat=None, faults=0.25, n=None, nstep
     known = {k.get('id') for k in ctx.known_list if k.get('property') == pid}
     hists = []
     if ctx.replay:
-        text = open(ctx.replay).read()
-        ctx.violation('replay-unsupported', text, 'engine replays are scenario files: run tools/showtrace %s' % ctx.replay, no_input=True)
-        return
+        hists = ec.load_replay(ctx.replay); extra_hists = None; cfg = dict(cfg, seeds=[])
+        if not hists:
+            ctx.violation('replay-unsupported', open(ctx.replay).read(), 'this replay file carries no generator ground truth: inspect it with tools/showtrace %s' % ctx.replay, no_input=True)
+            return
     for seed in cfg['seeds']:
         rnd = random.Random(seed * 1000003 + int(pid[1:]))
         for i in range(n):
@@ -80,7 +81,7 @@ def run_engine_property(ctx, pid, oracles, feat=None, faults=0.25, n=None, nstep
     if extra_hists: hists += extra_hists(ctx)
     rc, tr, err, out = ec.run_hists(hists)
     for hh, crc, cerr in getattr(ec.run_hists, 'crashes', []):
-        ctx.violation('engine-crash', hh.text(), 'ninja\'s engine died (signal/abort, rc=%s) in scenario %s: %s' % (crc, hh.sid, cerr.replace('\n', ' ')[-300:]))
+        ctx.violation('engine-crash', ec.replay_text(hh), 'ninja\'s engine died (signal/abort, rc=%s) in scenario %s: %s' % (crc, hh.sid, cerr.replace('\n', ' ')[-300:]))
     nbuilds = 0; seen_kinds = {}; nontriv = set(); samples = []
     for h in hists:
         bs = tr.get(h.sid)
@@ -96,16 +97,16 @@ def run_engine_property(ctx, pid, oracles, feat=None, faults=0.25, n=None, nstep
                     if bad:
                         rest, kn = classify_c01(h, st, b, bad, known)
                         for t in kn: ctx.known_finding(t)
-                        if rest: ctx.violation('content', h.text(), '%s build %d: %s' % (h.sid, bs.index(b), '; '.join(t for _, _, t in rest[:4])))
+                        if rest: ctx.violation('content', ec.replay_text(h), '%s build %d: %s' % (h.sid, bs.index(b), '; '.join(t for _, _, t in rest[:4])))
                 elif name == 'converge':
                     bad = fn(h, st, b, prev)
                     if bad:
                         kn = classify_c02(h, st, b, known)
                         if kn: ctx.known_finding(kn)
-                        else: ctx.violation(name, h.text(), '%s build %d: %s' % (h.sid, bs.index(b), '; '.join(bad[:4])))
+                        else: ctx.violation(name, ec.replay_text(h), '%s build %d: %s' % (h.sid, bs.index(b), '; '.join(bad[:4])))
                 else:
                     bad = fn(h, st, b, prev)
-                    if bad: ctx.violation(name, h.text(), '%s build %d: %s' % (h.sid, bs.index(b), '; '.join(bad[:4])))
+                    if bad: ctx.violation(name, ec.replay_text(h), '%s build %d: %s' % (h.sid, bs.index(b), '; '.join(bad[:4])))
             prev = (st, b)
         if len(samples) < 3 and prs:
             samples.append({'scenario': h.sid, 'manifest': h.g.manifest()[:400], 'steps': [s.line[:120] for s in h.steps[:6]],
